@@ -7,6 +7,7 @@ import Mathlib.Tactic.Ring
 import Mathlib.Tactic.Linarith
 import Mathlib.Tactic.NormNum
 import Labella.Props.C15
+import Labella.Props.C14
 import Labella.Proofs.PipelineLemmas
 /-! # C07 — every datum is drawn once, at its true time, linked to its own label
 
@@ -139,6 +140,40 @@ theorem time_dots_affine (d0 d1 : Int) (L : ℚ) (h : d0 ≠ d1) (t : Int) :
 theorem degenerate_dots_at_start (d L t : ℚ) : Scale.apply false d d 0 L t = 0 :=
   C12.degenerate false d 0 L t
 
+/-! ### every dot lies on the axis line (axis domain derived from the data: `init_axis` takes the extent of the times and makes it nice) -/
+
+theorem affine_within (n0 n1 L t : ℚ) (hL : 0 ≤ L) (h0 : n0 ≤ t) (h1 : t ≤ n1) (hlt : n0 < n1) :
+    0 ≤ Scale.apply false n0 n1 0 L t ∧ Scale.apply false n0 n1 0 L t ≤ L := by
+  rw [C12.affine n0 n1 0 L t (ne_of_lt hlt)]
+  have hd : 0 < n1 - n0 := by linarith
+  have hq0 : 0 ≤ (t - n0) / (n1 - n0) := div_nonneg (by linarith) hd.le
+  have hq1 : (t - n0) / (n1 - n0) ≤ 1 := by
+    rw [div_le_one hd]; linarith
+  constructor
+  · have := mul_nonneg hL hq0
+    linarith
+  · have := mul_le_mul_of_nonneg_left hq1 hL
+    linarith
+
+/-- numeric times: whatever the data (all inside `[lo, hi]`, their extent) and the tick count, after `nice` every dot is at a position
+between the two ends of the axis line `[0, L]` -/
+theorem dots_on_axis_linear (lo hi m L t : ℚ) (hm : 0 < m) (hL : 0 ≤ L) (hlt : lo < hi) (h0 : lo ≤ t) (h1 : t ≤ hi) :
+    0 ≤ Scale.apply false (Scale.nice lo hi m).1 (Scale.nice lo hi m).2 0 L t ∧
+    Scale.apply false (Scale.nice lo hi m).1 (Scale.nice lo hi m).2 0 L t ≤ L := by
+  obtain ⟨w0, w1⟩ := (C14.nice_widens lo hi m hm).1 hlt
+  exact affine_within _ _ L t hL (by linarith) (by linarith) (by linarith)
+
+/-- date / time values (instants in ms): the same with the calendar-aware `nice` of the time scale -/
+theorem dots_on_axis_time (lo hi : Int) (m L : ℚ) (t : Int) (hL : 0 ≤ L) (hlt : lo < hi) (h0 : lo ≤ t) (h1 : t ≤ hi) :
+    0 ≤ Calendar.timeApply (Calendar.nice lo hi m).1 (Calendar.nice lo hi m).2 0 L t ∧
+    Calendar.timeApply (Calendar.nice lo hi m).1 (Calendar.nice lo hi m).2 0 L t ≤ L := by
+  obtain ⟨w0, w1⟩ := (C14.time_nice_widens lo hi m).1 hlt.le
+  have a0 : (((Calendar.nice lo hi m).1 : Int) : ℚ) ≤ (t : ℚ) := by exact_mod_cast (le_trans w0 h0)
+  have a1 : (t : ℚ) ≤ (((Calendar.nice lo hi m).2 : Int) : ℚ) := by exact_mod_cast (le_trans h1 w1)
+  have a2 : (((Calendar.nice lo hi m).1 : Int) : ℚ) < (((Calendar.nice lo hi m).2 : Int) : ℚ) := by
+    exact_mod_cast (lt_of_le_of_lt w0 (lt_of_lt_of_le hlt w1))
+  exact affine_within _ _ L _ hL a0 a1 a2
+
 /-! ### end to end: `Timeline.compute` + the emitters, composed (`Model/Pipeline.lean`) -/
 section EndToEnd
 open Labella.Pipeline Labella.Layout
@@ -186,5 +221,75 @@ theorem pipeline_links (dir : Dir) (layerGap : ℚ) (fo : FOpts) (items : List P
   · rw [hbox, ← hh]; rfl
 
 end EndToEnd
+
+/-! ### the whole chain for numeric times: data → nice domain → scale → nodes → layout → drawn boxes, links and dots -/
+section WholeChain
+open Labella.Pipeline Labella.Layout
+
+/-- a datum as the caller supplies it: time, explicit label width, label height, whether it has a text -/
+structure Datum where
+  t : ℚ
+  W : ℚ
+  H : ℚ
+  hasText : Bool
+
+/-- `Timeline.init_axis` + `get_nodes` for numeric times: the axis domain is the nice extent `[lo, hi]` of the data, mapped onto `[0, L]`;
+every datum becomes a node at the image of its time with the padded (and for left / right turned) label size -/
+def nodesOf (dir : Dir) (pl pr pt pb : ℚ) (lo hi m L : ℚ) (data : List Datum) : List PItem :=
+  data.map (fun d =>
+    { ideal := Scale.apply false (Scale.nice lo hi m).1 (Scale.nice lo hi m).2 0 L d.t,
+      w := (labelSize dir pl pr pt pb d.H d.W d.hasText).1, h := (labelSize dir pl pr pt pb d.H d.W d.hasText).2 })
+
+/-- **C07, the whole chain** (numeric times, axis domain derived from the data): for every list of data inside its extent `[lo, hi]`, every
+tick count, axis length, direction, padding, engine configuration and layer gap ≥ 0 (direction `up`: labels of one common thickness) —
+every datum is drawn exactly once; its dot lies ON the axis line at the affine image of its time; its link starts at that dot, has one
+curve per layer, passes layer by layer through its own stub and ends within 1 unit of the middle of the axis-facing edge of its own box; the
+box has the datum's size plus padding. -/
+theorem timeline_chain (dir : Dir) (pl pr pt pb lo hi m L layerGap : ℚ) (fo : FOpts) (data : List Datum)
+    (hm : 0 < m) (hL : 0 ≤ L) (hlt : lo < hi) (hin : ∀ d ∈ data, lo ≤ d.t ∧ d.t ≤ hi) (hlg : 0 ≤ layerGap)
+    (hsz : ∀ it ∈ nodesOf dir pl pr pt pb lo hi m L data, 0 ≤ it.w ∧ 0 ≤ it.h)
+    (hup : dir = .up → ∀ it ∈ nodesOf dir pl pr pt pb lo hi m L data, it.h = nodeHeight dir (nodesOf dir pl pr pt pb lo hi m L data)) :
+    let items := nodesOf dir pl pr pt pb lo hi m L data
+    ((drawn dir layerGap fo items).map (·.id)).Perm (List.range data.length) ∧
+    ∀ a ∈ drawn dir layerGap fo items, ∃ d, data[a.id]? = some d ∧
+      -- the dot: on the axis line, at the affine image of the datum's own time
+      (items.getD a.id default).ideal = L * ((d.t - (Scale.nice lo hi m).1) / ((Scale.nice lo hi m).2 - (Scale.nice lo hi m).1)) ∧
+      0 ≤ (items.getD a.id default).ideal ∧ (items.getD a.id default).ideal ≤ L ∧
+      -- the box: the datum's size plus padding
+      (a.box.w, a.box.h) = labelSize dir pl pr pt pb d.H d.W d.hasText ∧
+      -- the link
+      (pathSteps (ropt dir layerGap items) a.node).head? =
+        some (Step.M (if dir.horizontalAxis then ((items.getD a.id default).ideal, 0) else (0, (items.getD a.id default).ideal))) ∧
+      ((pathSteps (ropt dir layerGap items) a.node).filter (fun s => match s with | .C _ _ _ => true | _ => false)).length = a.layer + 1 ∧
+      (∀ j, j < a.layer → ∃ p ∈ (Layout.compute fo (labelsOf dir items)).getD j [],
+          p.ref.id = a.id ∧ p.ref.isStub = true ∧ a.node.hops.getD j 0 = (p.pos : ℚ)) ∧
+      linkEndsB dir 0 1 (items.getD a.id default).ideal (pathSteps (ropt dir layerGap items) a.node) a.box = true := by
+  intro items
+  have hlen : items.length = data.length := by simp [items, nodesOf]
+  obtain ⟨hperm, hall⟩ := pipeline_links dir layerGap fo items hlg hsz hup
+  refine ⟨hlen ▸ hperm, ?_⟩
+  intro a ha
+  obtain ⟨hid, hw, hh, hhead, hcur, hstub, _, _, hend⟩ := hall a ha
+  have hid' : a.id < data.length := hlen ▸ hid
+  refine ⟨data[a.id], by simp [hid'], ?_⟩
+  have hitem : items.getD a.id default =
+      { ideal := Scale.apply false (Scale.nice lo hi m).1 (Scale.nice lo hi m).2 0 L data[a.id].t,
+        w := (labelSize dir pl pr pt pb data[a.id].H data[a.id].W data[a.id].hasText).1,
+        h := (labelSize dir pl pr pt pb data[a.id].H data[a.id].W data[a.id].hasText).2 } := by
+    simp [items, nodesOf, List.getD_eq_getElem?_getD, hid']
+  obtain ⟨w0, w1⟩ := (C14.nice_widens lo hi m hm).1 hlt
+  have hne : (Scale.nice lo hi m).1 ≠ (Scale.nice lo hi m).2 := ne_of_lt (by linarith)
+  obtain ⟨hd0, hd1⟩ := hin data[a.id] (List.getElem_mem _)
+  obtain ⟨b0, b1⟩ := dots_on_axis_linear lo hi m L data[a.id].t hm hL hlt hd0 hd1
+  refine ⟨?_, ?_, ?_, ?_, hhead, hcur, hstub, hend⟩
+  · rw [hitem]
+    simp only
+    rw [C12.affine _ _ 0 L _ hne]
+    ring
+  · rw [hitem]; exact b0
+  · rw [hitem]; exact b1
+  · rw [hw, hh, hitem]
+
+end WholeChain
 
 end Labella.C07
